@@ -87,7 +87,7 @@ pub fn c02() -> EngineProp {
     EngineProp {
         id: "C02",
         oracles: Oracles { values: true, ..Default::default() },
-        profiles: vec![(Profile::Lossy, 25000, 600_000), (Profile::General, 12000, 300_000), (Profile::Structural, 8000, 200_000), (Profile::Related, 5000, 100_000), (Profile::Split, 60000, 1_000_000), (Profile::Tight, 10000, 200_000), (Profile::Sessions, 30000, 600_000), (Profile::Wrap, 12000, 300_000)],
+        profiles: vec![(Profile::Lossy, 25000, 600_000), (Profile::General, 12000, 300_000), (Profile::Structural, 8000, 200_000), (Profile::Related, 5000, 100_000), (Profile::Split, 60000, 1_000_000), (Profile::Tight, 10000, 200_000), (Profile::Sessions, 30000, 600_000), (Profile::Wrap, 12000, 300_000), (Profile::Vis, 25000, 500_000)],
         nontrivial: |s| has(s, "mut_overtook_upd") || has(s, "mut_reordered") || has(s, "mut_dropped"),
         rule: "cases as C01; after EVERY client frame each mapped entity's continuously replicated components are compared with the recorded server snapshot \
                at the entity's ConfirmHistory::last_tick (all components against the same tick), once-components against the set of server values up to that tick, \
@@ -190,12 +190,13 @@ pub fn c05() -> EngineProp {
 pub fn c07() -> EngineProp {
     EngineProp {
         id: "C07",
-        oracles: Oracles { unauth: true, structure: true, converge: true, ..Default::default() },
+        oracles: Oracles { unauth: true, structure: true, converge: true, ev_once: true, ..Default::default() },
         profiles: vec![(Profile::Auth, 80000, 1_600_000)],
         nontrivial: |s| s.cfg.auth != 0 && s.world_ops >= 2,
         rule: "C01/C04 steps under AuthMethod::{ProtocolCheck, Custom, None}, hash delivered early / late / never, mismatching clients, clients the game never authorizes; \
                oracle: every message drained for a client without AuthorizedClient is on the channel of an independent event; from authorization on C03 applies \
-               (first update message brings the complete visible state) and C01 at quiescence; mismatching hash => never authorized, notified, disconnect requested. \
+               (first update message brings the complete visible state) and C01 at quiescence; mismatching hash => never authorized, notified, disconnect requested; the recipient model of C05 runs as well: a dependent event \
+               whose sending tick passed while a client was connected but not authorized must never reach that client later. \
                non-trivial = authorization is not None and the world changed at least twice",
         assumptions: vec![],
     }
